@@ -776,7 +776,7 @@ impl Property for C05 {
         r
     }
     fn rule(&self) -> String {
-        "proptest-generated cases: max_attempts 0-6 fixed or per request, backoff in {fixed, exponential default, exponential with multiplier/cap, exponential-random, custom non-monotone function}, predicate on/off, budget in {none, token bucket 0-3, AIMD} wrapped in a logging budget that tags each withdrawal with the polling task, 1-4 concurrent requests with outcome scripts (ok / retryable / refused error, latency 0-20 ms) sharing the budget, poll-order choices; virtual clock. Oracle: reference reading of the script: 1 <= attempts <= max(1,max_attempts); no attempt after a success or refused error; each retry k preceded by a grant logged for that request and by a gap >= the backoff for k (0-indexed; value computed independently for fixed/default-exponential, taken from the wrapped interval function otherwise, with the index checked); the call resolves in the instant of its last attempt with exactly that attempt's serial/code; stopping on a retryable error needs exhaustion or a logged denial. Non-trivial: at least one retry and a budget denial, refused error or exhaustion; distinct by hash of the case".into()
+        "proptest-generated cases: max_attempts 0-6 fixed or per request, backoff in {fixed, exponential default, exponential with multiplier/cap, exponential-random, custom non-monotone function}, predicate on/off, budget in {none, token bucket 0-3, AIMD} wrapped in a logging budget that tags each withdrawal with the polling task, 1-4 concurrent requests with outcome scripts (ok / retryable / refused error, latency 0-20 ms) sharing the budget, poll-order choices; virtual clock. Oracle: reference reading of the script: 1 <= attempts <= max(1,max_attempts); no attempt after a success or refused error; each retry k preceded by a grant logged for that request and by a gap >= the backoff for k (0-indexed; value computed independently for fixed/default-exponential, taken from the wrapped interval function otherwise, with the index checked); the call resolves in the instant of its last attempt with exactly that attempt's serial/code; stopping on a retryable error needs exhaustion or a logged denial.Also generated: event listeners, the other attempts setter (max_attempts / max_attempts_fn) called earlier with other values, a custom back-off whose first interval is zero. Non-trivial: at least one retry and a budget denial, refused error or exhaustion; distinct by hash of the case".into()
     }
     fn assumptions(&self) -> Vec<String> {
         vec![
